@@ -291,6 +291,11 @@ def check(R):
         exc = closure_in(R, FS + '::expire', ['Fabrics::remove'])
         R.expect('P3', exc.fn, 'roll-back reloads the persisted fabric after dropping the in-memory one',
                  not prims.always_followed_by(exc, [e[1] for e in R.call_guard(exc, 'fabric::Fabrics::remove')], call_bbs(exc, 'fabric::Fabrics::add_load')), 'remove -> add_load', 'a path skips add_load')
+        # the expiry has to get through: its only error exits before `state = Idle` are failures of the store.  Fabrics::remove fails for
+        # a fabric that is gone already (RemoveFabric of the very fabric that holds the fail-safe) - propagating that keeps the fail-safe
+        # armed for good and makes every later timeout sweep fail.  So the drop is cut by "that fabric is still there"
+        R.cut('P2', exc, 'drop the in-memory fabric of the fail-safe (Fabrics::remove, error propagated)', call_bbs(exc, 'fabric::Fabrics::remove'),
+              'the fabric still exists (Fabrics::get(idx) is Some)', lambda: _some_edges(F, exc, 'fabric::Fabrics::get'))
         t1, t2 = exc.calls('fabric::Fabrics::remove')[0], exc.calls('fabric::Fabrics::add_load')[0]
         R.expect('P10', exc.fn, 'the fabric reloaded has the index of the fabric dropped',
                  bool({x for x in prims.sources(exc, t1.d['a'][1]) if x[0] in ('upvar', 'field', 'call')} & {x for x in prims.sources(exc, t2.d['a'][1], through={'core::num::nonzero::NonZero::get'}) if x[0] in ('upvar', 'field', 'call')}),
@@ -321,6 +326,17 @@ def check(R):
                  'check_timeouts -> check_failsafe_timeout', 'not reachable')
         ct = R.body(FS + '::check_failsafe_timeout')
         R.expect('P10', ct.fn, 'expiry compares now >= armed_at + timeout', any(c_.endswith('Instant::now') for c_ in ct.calls_summary) and (FS + '::expire') in ct.calls_summary, 'ok', 'missing')
+
+
+def _some_edges(F, body, callee):
+    """success edges of those calls of callee whose result is branched on (a call whose result only flows into a value is skipped)"""
+    e = set()
+    for t in body.calls(callee):
+        e |= prims.track_result(F, body, t).success
+    if not e:
+        from facts import GuardMissing
+        raise GuardMissing(f'{body.fn}: no call of {callee} whose result is tested')
+    return e
 
 
 def _cmp_false(body, op, lp, rp):
